@@ -9,6 +9,7 @@ CONSTANTS
   Confs <- ConfsSw
   Stores <- StoresNone
   Ancs <- AncsTs
+  SrcPorts <- SrcPortsEph
   RestoreAtTop = TRUE
 CONSTRAINTS GenStop
 INVARIANTS EmitPair
